@@ -5,37 +5,53 @@
  * is an outcome line ("outcome=signal:11", "outcome=timeout", "outcome=runaway"), not a harness crash.
  *
  *   info
- *       -> "info attr_size=<sizeof(myth_thread_attr_t)> ptr=8 nfun=16 many_fid=3"
- *   bulk W kind n fs as rs is ts hasres hasids hasattrs [cf sk seed]
+ *       -> "info attr_size=<sizeof(myth_thread_attr_t)> ptr=8 nfun=16 many_fid=3 default_child_first=<0|1>"
+ *   bulk W kind n fs as rs is ts hasres hasids hasattrs [cf sk seed [wk]]
  *       W workers (MYTH_NUM_WORKERS), kind = many | various, n items, byte strides of the
  *       function / argument / result / id / attribute arrays, and whether results / ids /
  *       attrs are passed (1) or NULL (0).  Per-item attributes (slot j of the attrs array):
  *       cf = child_first pattern: 0 all 0 (help-first / parent-first creation), 1 all 1, 2 = j mod 2,
  *            3 = (j+1) mod 2, 4 = pseudo-random bit of (seed, j), 5 = what myth_thread_attr_init gives;
- *       sk = stack size pattern: 0 all 128 KiB, 1 pseudo-random in {16,32,64,128,256} KiB, 2 all 0
- *            (the library's default stack path), 3 pseudo-random mix of 1 and 2.  A custom stack size
- *            carries the slot number j in its low 12 bits (the library rounds up to 4 KiB).
- *       Defaults when omitted: cf = 5, sk = 0, seed = 0.
+ *       sk = stack size pattern: 0 all 128 KiB, 1 pseudo-random 16..256 KiB incl. sizes that are not a
+ *            power of two, 2 all 0 (the library's default stack path), 3 pseudo-random mix of 1 and 2.
+ *            A custom stack size carries the slot number j in its low 12 bits (the library rounds up to 4 KiB).
+ *       wk = 1: every application does work that forces interleaving: 0-3 myth_yield()s and a spin of a
+ *            few hundred iterations (pseudo-random per item), a 256-byte stack array and, on a custom
+ *            stack, a quarter of the promised stack (at most 32 KiB) filled with a private pattern and
+ *            verified after every yield.  wk = 0: the body returns at once.
+ *       Defaults when omitted: cf = 5, sk = 0, seed = 0, wk = 0.
+ *   bulkbig W kind n ny
+ *       one call over n items (argument stride 8, result stride 8, no ids, no attrs) whose bodies yield ny
+ *       times -> "big n=<n> once=<items applied exactly once> other=<items applied another number of
+ *       times> resok=<result slots holding the item's value> created=<k> reaped=<k>"
  *
  * Input layout: function slot j (at funcs + j*fs; only slot 0 when fs = 0) holds function number
  * j mod 16 (16 distinct C functions); `many` passes function number 3.  Function number k applied
  * to argument address x logs (k, x - args, myth_self()) and returns enc(k, x - args), a value whose
- * bytes are all in 0x40..0x7f.  Attribute slot j requests stack size pages(j)*4096 + j, which the
- * alloc.stack hook event reports back, so the attribute slot used by every creation is observed
- * (-2 is printed for a creation through a slot that asks for stack size 0).
- * Every array lives in a buffer pre-filled with 0xA5 with PAD bytes in front and behind.
+ * bytes are all in 0x40..0x7f.  Attribute slot j requests stack size pages(j)*4096 + j; the hook events
+ * alloc.stack (stack block, requested size), create.init (descriptor, on the creating worker) and
+ * create.start (descriptor, 1 = started by the creator switching to it, 0 = started later from the run
+ * queue) give, for every created thread, the attribute slot it was created with and whether it was
+ * created child first.  Every array lives in a buffer pre-filled with 0xA5 with PAD bytes in front and behind.
  *
- * Output (one line, no addresses):
- *   ret=<r> inv=<fid:argoff:inl,...> res=<off:fid:argoff,...> resstray=<k> ids=<off,...>
- *   idmis=<k> idstray=<k> cre=<attr offset | -1 | -2,...> created=<k> reaped=<k> argchg=<k> funchg=<k> attrchg=<k>
- * inv: every application (sorted; inl = 1 if it ran in the calling thread); res: every 8-byte slot
- * of the result buffer that now holds an encoded value (deduplicated), resstray: changed bytes of the
- * result buffer that are not part of such a slot; ids: offsets of the slots of the id buffer that hold
- * the handle of a thread that ran an application, idmis: slots
- * i*is whose handle is not that of the thread that ran item i (where the item is identifiable),
- * idstray: changed bytes of the id buffer that are not part of such a slot; cre: attribute slot offset of every creation (-1 = no attribute, -2 = attribute with stack size 0);
- * created / reaped: create.init / join.reap hook events during the call; *chg: changed bytes in the
- * argument / function / attribute arrays. */
+ * Output (one line, no addresses; the part after " | " is schedule dependent and not compared):
+ *   ret=<r> inv=<fid:argoff:inl:atag,...> res=<off:fid:argoff,...> resstray=<k> ids=<off,...>
+ *   idmis=<k> idstray=<k> cre=<attr offset | -1 | -2>:<cf>,... created=<k> reaped=<k> argchg=<k> funchg=<k>
+ *   attrchg=<k> stkbad=<k> | xw=<k> maxact=<k> yields=<k>
+ * inv: every application (sorted; inl = 1 if it ran in the calling thread; atag = byte offset of the
+ * attribute slot the thread running it was created with, found from inside the item through its thread's
+ * creation record; -1 = calling thread or no attribute, -2 = attribute with stack size 0); res: every
+ * 8-byte slot of the result buffer that now holds an encoded value (deduplicated), resstray: changed bytes
+ * of the result buffer that are not part of such a slot; ids: offsets of the slots of the id buffer that
+ * hold the handle of a thread that ran an application, idmis: slots i*is whose handle is not that of the
+ * thread that ran item i (where the item is identifiable), idstray: changed bytes of the id buffer that are
+ * not part of such a slot; cre: per creation the attribute slot offset (-1 = no attribute, -2 = attribute
+ * with stack size 0) and the observed start path (1 child first, 0 parent first); created / reaped:
+ * create.init / join.reap hook events during the call; *chg: changed bytes in the argument / function /
+ * attribute arrays; stkbad: applications whose local variables were not inside the stack block their
+ * thread was promised, or whose private stack pattern was overwritten.
+ * xw: applications that started on a worker other than the one that created their thread; maxact: largest
+ * number of applications started and not yet finished; yields: myth_yield() calls made by the bodies. */
 #include <stdio.h>
 #include <stdlib.h>
 #include <string.h>
@@ -44,6 +60,7 @@
 #include <signal.h>
 #include <sys/types.h>
 #include <sys/wait.h>
+#include <alloca.h>
 #include "myth/myth.h"
 #include "myth_verif.h"
 
@@ -52,34 +69,62 @@
 #define NFUN 16
 #define MANY_FID 3
 #define MAXEV 200000
-#define RUNAWAY 20000
 #define CHILD_TIMEOUT 10
+#define BIG_TIMEOUT 90
+#define MAXW 64
 
-typedef struct { int fid; long off; myth_thread_t self; } inv_t;
+typedef struct { int fid; long off; myth_thread_t self; long atag; } inv_t;
+/* one record per created thread, filled by the hooks */
+typedef struct { volatile myth_thread_t th; long size; char * stk; int creator; volatile int startval; } cre_t;
 static inv_t g_inv[MAXEV];
+static cre_t g_cre[MAXEV];
 static volatile long g_ninv;
 static char * g_args;
 static volatile int g_in_call;
 static myth_thread_t g_caller;
-static volatile long g_ncreated, g_nreaped, g_nstk;
-static long g_stk[MAXEV];
+static volatile long g_ncreated, g_nreaped;
+static long g_runaway = 20000;
+static int g_big;                       /* bulkbig: hooks only count */
+static long g_pend_size[MAXW]; static char * g_pend_stk[MAXW];
+static volatile long g_active, g_maxact, g_xw, g_yields, g_stkbad;
+static int g_wk; static long g_seed; static size_t g_ts; static int g_hasattrs;
 
 static void emit_and_exit(const char * s, int code) {
   ssize_t r_ = write(1, s, strlen(s)); (void)r_;
   _exit(code);
 }
 
+/* latest creation record of a thread descriptor (descriptors are recycled; the latest one is the live one) */
+static cre_t * cre_lookup(myth_thread_t th) {
+  long k = g_ncreated < MAXEV ? g_ncreated : MAXEV;
+  for (k--; k >= 0; k--) if (g_cre[k].th == th) return &g_cre[k];
+  return 0;
+}
 static void cb(int kind, const char * id, const void * obj, long val) {
-  (void)kind; (void)obj;
+  (void)kind;
   if (!g_in_call) return;
   if (strcmp(id, "create.init") == 0) {
     long k = __sync_fetch_and_add(&g_ncreated, 1);
-    if (k > RUNAWAY) emit_and_exit("outcome=runaway\n", 3);
+    if (k > g_runaway) emit_and_exit("outcome=runaway\n", 3);
+    if (!g_big && k < MAXEV) {
+      int w = myth_get_worker_num();
+      g_cre[k].size = (w >= 0 && w < MAXW) ? g_pend_size[w] : 0;
+      g_cre[k].stk = (w >= 0 && w < MAXW) ? g_pend_stk[w] : 0;
+      g_cre[k].creator = w;
+      g_cre[k].startval = -1;
+      __sync_synchronize();
+      g_cre[k].th = (myth_thread_t)obj;
+    }
   } else if (strcmp(id, "join.reap") == 0) {
     __sync_fetch_and_add(&g_nreaped, 1);
+  } else if (g_big) {
+    return;
   } else if (strcmp(id, "alloc.stack") == 0) {
-    long k = __sync_fetch_and_add(&g_nstk, 1);
-    if (k < MAXEV) g_stk[k] = val;
+    int w = myth_get_worker_num();
+    if (w >= 0 && w < MAXW) { g_pend_size[w] = val; g_pend_stk[w] = (char *)obj; }
+  } else if (strcmp(id, "create.start") == 0) {
+    cre_t * r = cre_lookup((myth_thread_t)obj);
+    if (r) r->startval = (int)val;
   }
 }
 
@@ -101,10 +146,13 @@ static int slot_stack_zero(int sk, long seed, long j) {
   return sk == 2 || (sk == 3 && slot_hash(seed, j) % 3 == 0);
 }
 static size_t slot_stack(int sk, long seed, long j) {
-  static const long pages[5] = { 4, 8, 16, 32, 64 };
+  static const long pages[14] = { 4, 5, 6, 7, 8, 9, 12, 16, 20, 24, 32, 33, 48, 64 };
   if (slot_stack_zero(sk, seed, j)) return 0;
   if (sk == 0) return 32 * 4096 + (j & 0xfff);
-  return pages[slot_hash(seed, j + 1) % 5] * 4096 + (j & 0xfff);
+  return pages[slot_hash(seed, j + 1) % 14] * 4096 + (j & 0xfff);
+}
+static long tag_of_size(long size) {
+  return size == 0 ? (g_hasattrs ? -2 : -1) : (long)((size & 0xfff) * (long)g_ts);
 }
 
 static uint64_t enc(int fid, long off) {
@@ -125,10 +173,57 @@ static int dec(uint64_t v, int * fid, long * off) {
   return 1;
 }
 
+/* bulkbig: per-item counters */
+static volatile int * g_cnt; static int g_ny;
+
 static void * leaf_body(int fid, void * a) {
-  long k = __sync_fetch_and_add(&g_ninv, 1);
-  long off = (char *)a - g_args;
-  if (k < MAXEV) { g_inv[k].fid = fid; g_inv[k].off = off; g_inv[k].self = myth_self(); }
+  volatile unsigned char loc[256];
+  long off = (char *)a - g_args, k, act, m, atag = -1;
+  myth_thread_t self = myth_self();
+  if (g_big) {
+    int y;
+    for (y = 0; y < g_ny; y++) myth_yield();
+    __sync_fetch_and_add(&g_cnt[off / 8], 1);
+    return (void *)enc(fid, off);
+  }
+  act = __sync_add_and_fetch(&g_active, 1);
+  while ((m = g_maxact) < act && !__sync_bool_compare_and_swap(&g_maxact, m, act)) { }
+  {
+    cre_t * rec = self == g_caller ? 0 : cre_lookup(self);
+    long h = slot_hash(g_seed + fid, off), rounded = 0;
+    int ny = g_wk ? (int)(h % 4) : 0, spin = g_wk ? (int)((h / 4) % 400) : 0, y, j, bad = 0;
+    size_t use = 0, q;
+    volatile unsigned char * buf = 0;
+    if (rec) {
+      atag = tag_of_size(rec->size);
+      if (rec->creator != myth_get_worker_num()) __sync_fetch_and_add(&g_xw, 1);
+      if (rec->size) {
+        /* are we on the stack block this thread was promised? */
+        rounded = (rec->size + 0xfff) & ~0xfffL;
+        if (!((char *)loc >= rec->stk + 16 - rounded && (char *)loc < rec->stk + 16)) bad = 1;
+        if (g_wk && rec->size >= 16384) { use = rec->size / 4; if (use > 32768) use = 32768; }
+      }
+    }
+    if (g_wk) {
+      for (j = 0; j < 256; j++) loc[j] = (unsigned char)(off * 31 + fid + j);
+      if (use) {
+        buf = (volatile unsigned char *)alloca(use);
+        for (q = 0; q < use; q += 64) buf[q] = (unsigned char)(off * 7 + fid + q);
+      }
+      for (y = 0; y <= ny; y++) {
+        volatile int sp;
+        if (y > 0) { myth_yield(); __sync_fetch_and_add(&g_yields, 1); }
+        for (sp = 0; sp < spin; sp++) { }
+        for (j = 0; j < 256; j++) if (loc[j] != (unsigned char)(off * 31 + fid + j)) bad = 1;
+        if (use)
+          for (q = 0; q < use; q += 64) if (buf[q] != (unsigned char)(off * 7 + fid + q)) bad = 1;
+      }
+    }
+    if (bad) __sync_fetch_and_add(&g_stkbad, 1);
+  }
+  k = __sync_fetch_and_add(&g_ninv, 1);
+  if (k < MAXEV) { g_inv[k].fid = fid; g_inv[k].off = off; g_inv[k].self = self; g_inv[k].atag = atag; }
+  __sync_fetch_and_sub(&g_active, 1);
   return (void *)enc(fid, off);
 }
 #define DEF(k) static void * fn##k(void * a) { return leaf_body(k, a); }
@@ -154,11 +249,13 @@ static int cmp_inv(const void * a, const void * b) {
   if (x->fid != y->fid) return x->fid < y->fid ? -1 : 1;
   if (x->off != y->off) return x->off < y->off ? -1 : 1;
   if ((x->self == g_caller) != (y->self == g_caller)) return (x->self == g_caller) ? 1 : -1;
+  if (x->atag != y->atag) return x->atag < y->atag ? -1 : 1;
   return 0;
 }
-static int cmp_long(const void * a, const void * b) {
-  long x = *(const long *)a, y = *(const long *)b;
-  return x < y ? -1 : x > y;
+static int cmp_long2(const void * a, const void * b) {
+  const long * x = a, * y = b;
+  if (x[0] != y[0]) return x[0] < y[0] ? -1 : 1;
+  return x[1] < y[1] ? -1 : x[1] > y[1];
 }
 
 static char g_out[1 << 22];
@@ -166,7 +263,7 @@ static size_t g_len;
 #define OUT(...) do { g_len += snprintf(g_out + g_len, sizeof g_out - g_len, __VA_ARGS__); } while (0)
 
 static void run_bulk(int W, const char * kind, long n, size_t fs, size_t as, size_t rs, size_t is, size_t ts,
-                     int hasres, int hasids, int hasattrs, int cf, int sk, long seed) {
+                     int hasres, int hasids, int hasattrs, int cf, int sk, long seed, int wk) {
   char wbuf[16];
   size_t flen, alen, rlen, ilen, tlen, i;
   char * fbuf, * abuf, * rbuf, * ibuf, * tbuf, * fref, * tref;
@@ -176,6 +273,8 @@ static void run_bulk(int W, const char * kind, long n, size_t fs, size_t as, siz
   snprintf(wbuf, sizeof wbuf, "%d", W);
   setenv("MYTH_NUM_WORKERS", wbuf, 1);
   g_myth_verif_cb = cb;
+  g_wk = wk; g_seed = seed; g_ts = ts; g_hasattrs = hasattrs;
+  if (4 * n > g_runaway) g_runaway = 4 * n;
   myth_init();
   caller = g_caller = myth_self();
 
@@ -219,7 +318,7 @@ static void run_bulk(int W, const char * kind, long n, size_t fs, size_t as, siz
     memcpy(s, g_inv, sizeof(inv_t) * ninv);
     qsort(s, ninv, sizeof(inv_t), cmp_inv);
     for (j = 0; j < ninv; j++)
-      OUT("%s%d:%ld:%d", j ? "," : "", s[j].fid, s[j].off, s[j].self == caller);
+      OUT("%s%d:%ld:%d:%ld", j ? "," : "", s[j].fid, s[j].off, s[j].self == caller, s[j].atag);
     free(s);
   }
   /* result buffer: maximal runs of changed bytes, cut into 8-byte values */
@@ -265,19 +364,49 @@ static void run_bulk(int W, const char * kind, long n, size_t fs, size_t as, siz
   }
   OUT(" idmis=%ld idstray=%ld cre=", idmis, idstray);
   {
-    long ns = g_nstk < MAXEV ? g_nstk : MAXEV;
-    long * s = malloc(sizeof(long) * (ns + 1));
-    for (j = 0; j < ns; j++) s[j] = g_stk[j] == 0 ? (hasattrs ? -2 : -1) : (long)((g_stk[j] & 0xfff) * (long)ts);
-    qsort(s, ns, sizeof(long), cmp_long);
-    for (j = 0; j < ns; j++) OUT("%s%ld", j ? "," : "", s[j]);
+    long ns = g_ncreated < MAXEV ? g_ncreated : MAXEV;
+    long * s = malloc(sizeof(long) * 2 * (ns + 1));
+    for (j = 0; j < ns; j++) { s[2 * j] = tag_of_size(g_cre[j].size); s[2 * j + 1] = g_cre[j].startval; }
+    qsort(s, ns, 2 * sizeof(long), cmp_long2);
+    for (j = 0; j < ns; j++) OUT("%s%ld:%ld", j ? "," : "", s[2 * j], s[2 * j + 1]);
     free(s);
   }
   {
     char * aref = malloc(alen);
     memset(aref, FILL, alen);
-    OUT(" created=%ld reaped=%ld argchg=%ld funchg=%ld attrchg=%ld\n", g_ncreated, g_nreaped,
-        changed(abuf, aref, alen), changed(fbuf, fref, flen), changed(tbuf, tref, tlen));
+    OUT(" created=%ld reaped=%ld argchg=%ld funchg=%ld attrchg=%ld stkbad=%ld | xw=%ld maxact=%ld yields=%ld\n",
+        g_ncreated, g_nreaped, changed(abuf, aref, alen), changed(fbuf, fref, flen), changed(tbuf, tref, tlen),
+        g_stkbad, g_xw, g_maxact, g_yields);
   }
+  emit_and_exit(g_out, 0);
+}
+
+static void run_big(int W, const char * kind, long n, int ny) {
+  char wbuf[16];
+  char * abuf; void ** rbuf; myth_func_t f3 = FT[MANY_FID];
+  long j, once = 0, other = 0, resok = 0;
+  int r;
+  snprintf(wbuf, sizeof wbuf, "%d", W);
+  setenv("MYTH_NUM_WORKERS", wbuf, 1);
+  g_myth_verif_cb = cb;
+  g_big = 1; g_ny = ny; g_runaway = 4 * n + 1000;
+  myth_init();
+  g_caller = myth_self();
+  abuf = malloc(8 * (n + 1)); rbuf = calloc(n + 1, sizeof(void *));
+  g_cnt = calloc(n + 1, sizeof(int));
+  g_args = abuf;
+  g_in_call = 1;
+  if (strcmp(kind, "many") == 0)
+    r = myth_create_join_many_ex(0, 0, FT[MANY_FID], abuf, rbuf, 0, 0, 8, 8, n);
+  else
+    r = myth_create_join_various_ex(0, 0, &f3, abuf, rbuf, 0, 0, 0, 8, 8, n);
+  g_in_call = 0;
+  for (j = 0; j < n; j++) {
+    if (g_cnt[j] == 1) once++; else other++;
+    if (rbuf[j] == (void *)enc(MANY_FID, 8 * j)) resok++;
+  }
+  if (g_cnt[n] != 0 || rbuf[n] != 0) other++;
+  OUT("big ret=%d n=%ld once=%ld other=%ld resok=%ld created=%ld reaped=%ld\n", r, n, once, other, resok, g_ncreated, g_nreaped);
   emit_and_exit(g_out, 0);
 }
 
@@ -285,17 +414,26 @@ int main(void) {
   char line[1024];
   while (fgets(line, sizeof line, stdin)) {
     char op[32] = "", kind[32] = "";
-    int W = 1, hr = 0, hi = 0, ht = 0, cf = 5, sk = 0, nf; long seed = 0;
+    int W = 1, hr = 0, hi = 0, ht = 0, cf = 5, sk = 0, nf, wk = 0, big = 0, ny = 0; long seed = 0;
     long n = 0; unsigned long fs = 0, as = 0, rs = 0, is = 0, ts = 0;
     if (sscanf(line, "%31s", op) != 1) continue;
     if (strcmp(op, "info") == 0) {
-      printf("info attr_size=%zu ptr=%zu nfun=%d many_fid=%d\n", sizeof(myth_thread_attr_t), sizeof(void *), NFUN, MANY_FID);
+      /* the default child_first of attr_init is read in a child: it initialises the runtime */
+      int pfd[2], dcf = -1; pid_t ip;
+      if (pipe(pfd) == 0 && (ip = fork()) >= 0) {
+        if (ip == 0) { myth_thread_attr_t at; char c; myth_thread_attr_init(&at); c = (char)('0' + at.child_first); if (write(pfd[1], &c, 1) < 0) { } _exit(0); }
+        else { char c = '?'; int st; close(pfd[1]); if (read(pfd[0], &c, 1) == 1) dcf = c - '0'; waitpid(ip, &st, 0); close(pfd[0]); }
+      }
+      printf("info attr_size=%zu ptr=%zu nfun=%d many_fid=%d default_child_first=%d\n", sizeof(myth_thread_attr_t), sizeof(void *), NFUN, MANY_FID, dcf);
       fflush(stdout);
       continue;
     }
-    if (strcmp(op, "bulk") != 0 ||
-        ((nf = sscanf(line, "%*s %d %31s %ld %lu %lu %lu %lu %lu %d %d %d %d %d %ld", &W, kind, &n, &fs, &as, &rs, &is, &ts, &hr, &hi, &ht,
-                      &cf, &sk, &seed)) != 11 && nf != 14)) {
+    if (strcmp(op, "bulkbig") == 0) {
+      if (sscanf(line, "%*s %d %31s %ld %d", &W, kind, &n, &ny) != 4 || n < 0 || n > 2000000) { printf("badcase\n"); fflush(stdout); continue; }
+      big = 1;
+    } else if (strcmp(op, "bulk") != 0 ||
+        ((nf = sscanf(line, "%*s %d %31s %ld %lu %lu %lu %lu %lu %d %d %d %d %d %ld %d", &W, kind, &n, &fs, &as, &rs, &is, &ts, &hr, &hi, &ht,
+                      &cf, &sk, &seed, &wk)) != 11 && nf != 14 && nf != 15)) {
       printf("badcase\n"); fflush(stdout); continue;
     }
     fflush(stdout);
@@ -303,8 +441,9 @@ int main(void) {
       pid_t pid = fork();
       int st = 0;
       if (pid == 0) {
-        alarm(CHILD_TIMEOUT);
-        run_bulk(W, kind, n, fs, as, rs, is, ts, hr, hi, ht, cf, sk, seed);
+        alarm(big ? BIG_TIMEOUT : CHILD_TIMEOUT);
+        if (big) run_big(W, kind, n, ny);
+        run_bulk(W, kind, n, fs, as, rs, is, ts, hr, hi, ht, cf, sk, seed, wk);
         _exit(0);
       }
       if (waitpid(pid, &st, 0) < 0) { printf("outcome=waitfail\n"); }
